@@ -263,6 +263,45 @@ Definition mode_after (cached : bool) (h : list lcfg) (first_byte : N) : option 
   | None => None
   end.
 
+(* ---------- the context of an SDS provider over a history of pushes and config updates ----------
+   secret_manager.go: the certificate secret, the validation (CA) secret and the TLSConfig of an SDS provider arrive
+   separately and repeatedly; each arrival ends in sdsProvider.update(), which - once certificate and CA are present -
+   builds a context from the CURRENT secret + config and installs it.  `always` (Gen/TLSTokens.v
+   sds_update_always_installs) = nothing between building and installing can keep the old context; with always = false the
+   model keeps the old context when the new one has the same hash (GenerateHashValue covers the certificate, ALPN and the
+   client-auth mode only - not server_name, the CA, insecure_skip). *)
+Record scfg := mkSC { sc_sname : nat; sc_alpn : nat; sc_require : bool; sc_verify : bool; sc_skip : bool }.
+Record sctx := mkSX { sx_cert : nat; sx_ca : nat; sx_cfg : scfg }.
+Record sprov := mkSP { sp_cert : option nat; sp_ca : option nat; sp_cfg : scfg; sp_ctx : option sctx }.
+Inductive sev := EvCert (c : nat) | EvCA (a : nat) | EvCfg (c : scfg).
+
+Definition sx_hash (x : sctx) : nat * nat * bool * bool :=
+  (sx_cert x, sc_alpn (sx_cfg x), sc_require (sx_cfg x), sc_verify (sx_cfg x)).
+Definition hash_eqb (a b : nat * nat * bool * bool) : bool :=
+  match a, b with (a1, a2, a3, a4), (b1, b2, b3, b4) =>
+    andb (andb (Nat.eqb a1 b1) (Nat.eqb a2 b2)) (andb (Bool.eqb a3 b3) (Bool.eqb a4 b4)) end.
+
+Definition sp_update (always : bool) (p : sprov) : sprov :=
+  match sp_cert p, sp_ca p with
+  | Some c, Some a =>
+      let nw := mkSX c a (sp_cfg p) in
+      match sp_ctx p with
+      | Some old => if andb (negb always) (hash_eqb (sx_hash old) (sx_hash nw)) then p
+                    else mkSP (sp_cert p) (sp_ca p) (sp_cfg p) (Some nw)
+      | None => mkSP (sp_cert p) (sp_ca p) (sp_cfg p) (Some nw)
+      end
+  | _, _ => p
+  end.
+Definition sp_step (always : bool) (p : sprov) (e : sev) : sprov :=
+  sp_update always
+    match e with
+    | EvCert c => mkSP (Some c) (sp_ca p) (sp_cfg p) (sp_ctx p)
+    | EvCA a => mkSP (sp_cert p) (Some a) (sp_cfg p) (sp_ctx p)
+    | EvCfg c => mkSP (sp_cert p) (sp_ca p) c (sp_ctx p)
+    end.
+Definition provider_after (always : bool) (cfg0 : scfg) (h : list sev) : sprov :=
+  fold_left (sp_step always) h (sp_update always (mkSP None None cfg0 None)).
+
 (* ---------- correspondence cases ---------- *)
 Fixpoint mismatches_from {A} (ok : A -> bool) (i : nat) (l : list A) : list nat :=
   match l with
@@ -324,6 +363,22 @@ Definition insp_case := (bool * bool * N * N)%type.
 Definition insp_case_ok (k : insp_case) : bool :=
   match k with (ar, insp, b, got) => N.eqb (mode_code (conn_mode_of true ar insp b)) got end.
 Definition insp_mismatches (l : list insp_case) : list nat := mismatches_from insp_case_ok 0 l.
+
+(* SDS provider: initial config, history, observed context in force: None = not ready, else
+   (certificate, CA trusted, server_name that selects it, ALPN, ClientAuth code, insecure_skip of the client side) *)
+Definition sds_case := (scfg * list sev * option (nat * nat * nat * nat * N * bool))%type.
+Definition sds_case_ok (always : bool) (k : sds_case) : bool :=
+  match k with (c0, h, got) =>
+    match sp_ctx (provider_after always c0 h), got with
+    | None, None => true
+    | Some x, Some (gc, ga, gs, gal, gau, gsk) =>
+        let c := sx_cfg x in
+        andb (andb (andb (Nat.eqb (sx_cert x) gc) (Nat.eqb (sx_ca x) ga)) (andb (Nat.eqb (sc_sname c) gs) (Nat.eqb (sc_alpn c) gal)))
+             (andb (N.eqb (auth_code (client_auth (sc_require c) (sc_verify c))) gau) (Bool.eqb (sc_skip c) gsk))
+    | _, _ => false
+    end
+  end.
+Definition sds_mismatches (always : bool) (l : list sds_case) : list nat := mismatches_from (sds_case_ok always) 0 l.
 
 (* update history of one listener name, first byte of a client, observed mode (0 raw, 1 tls, 2 plain) *)
 Definition upd_case := (list lcfg * N * N)%type.
